@@ -825,6 +825,8 @@ func (p *parser) parseReturnStatement() Node {
 	switch {
 	case p.scope.returnType == nil:
 		p.appendErrorForToken("return statement not allowed here", retValueToken)
+	case ret.Value != nil && ret.T == NONE_TYPE:
+		p.appendErrorForToken("invalid return value, function has no return value", retValueToken)
 	case !p.scope.returnType.accepts(ret.T):
 		msg := "expected return value of type " + p.scope.returnType.String() + ", found " + ret.T.String()
 		if p.scope.returnType == NONE_TYPE && ret.T != NONE_TYPE {
